@@ -289,4 +289,88 @@ def commitNamed (files : NamedFiles) (name : B) (b : Layer) : NamedFiles :=
 
 def namedGet (files : NamedFiles) (k : IKey) : Option B := filesGet (files.map (·.2)) k
 
+/-! ### what the index updater writes: `IndexCacheUpdater.add_object` as `_add_node` calls
+
+Keys are 3-tuples of byte strings, values byte strings joined with single spaces
+(`IndexGitShaMap._add_git_sha`, `IndexCacheUpdater.add_object`). -/
+
+def kGit : B := [103, 105, 116]                    -- b"git"
+def kCommit : B := [99, 111, 109, 109, 105, 116]   -- b"commit"
+def kBlob : B := [98, 108, 111, 98]                -- b"blob"
+def kTree : B := [116, 114, 101, 101]              -- b"tree"
+def kX : B := [88]                                 -- b"X"
+def sp : B := [32]
+
+def gitKey (sha : B) : IKey := (kGit, sha, kX)
+def commitKey (revid : B) : IKey := (kCommit, revid, kX)
+def blobKey (fid rev : B) : IKey := (kBlob, fid, rev)
+
+/-- `b" ".join((type,) + type_data)` -/
+def encEntry : Entry → B
+  | .commit r t none => kCommit ++ sp ++ r ++ sp ++ t
+  | .commit r t (some tm) => kCommit ++ sp ++ r ++ sp ++ t ++ sp ++ tm
+  | .blob f r => kBlob ++ sp ++ f ++ sp ++ r
+  | .tree f r => kTree ++ sp ++ f ++ sp ++ r
+
+/-- the `_add_node` calls of one `add_object`, in order -/
+def opNodes : Op → List (IKey × B)
+  | .commit r s t tm => [(gitKey s, encEntry (.commit r t tm)), (commitKey r, s ++ sp ++ t)]
+  | .blob s f r => [(gitKey s, encEntry (.blob f r)), (blobKey f r, s)]
+  | .tree s f r => [(gitKey s, encEntry (.tree f r))]
+
+/-- `lookup_commit`: `value[:40]` -/
+def commitShaOf (v : B) : B := v.take 40
+
+def IdxStore.addNodes (s : IdxStore) : List (IKey × B) → Option IdxStore
+  | [] => some s
+  | (k, v) :: rest =>
+    match s.addNode k v with
+    | none => none
+    | some s' => s'.addNodes rest
+
+/-- one write group: start, every `add_object` of every session, commit -/
+def IdxStore.writeGroup (s : IdxStore) (ops : List Op) : Option IdxStore :=
+  match s.startWriteGroup with
+  | none => none
+  | some s1 =>
+    match s1.addNodes (ops.flatMap opNodes) with
+    | none => none
+    | some s2 => s2.commitWriteGroup
+
+def IdxStore.runGroups (s : IdxStore) : List (List Op) → Option IdxStore
+  | [] => some s
+  | g :: gs =>
+    match s.writeGroup g with
+    | none => none
+    | some s' => s'.runGroups gs
+
+def IdxStore.empty : IdxStore := { files := [], builder := none }
+
+/-- the first row recorded for a sha (what the one-node-per-sha index can hold) -/
+def firstRow (st : St) (sha : B) : Option Row := st.git.find? (fun r => r.1 == sha)
+
+/-- commit shas are 40 bytes (hex SHA-1), which `lookup_commit`'s `[:40]` relies on -/
+def Op.wf : Op → Bool
+  | .commit _ s _ _ => s.length == 40
+  | _ => true
+
+/-! ### `DictGitShaMap._by_fileid`: ONE dict for blob and tree ids
+
+`lookup_blob_id` and `lookup_tree_id` of the in-memory backend both read
+`_by_fileid[revision][fileid]`, which `add_object` writes for blobs and trees
+alike: the answer is the sha of the last blob-or-tree add for the key. -/
+
+def Op.fkey : Op → Option FKey
+  | .blob _ f r => some (f, r)
+  | .tree _ f r => some (f, r)
+  | .commit .. => none
+
+/-- chronological list of adds; later adds win -/
+def sharedId : List Op → FKey → Option B
+  | [], _ => none
+  | o :: rest, k =>
+    match sharedId rest k with
+    | some v => some v
+    | none => if o.fkey = some k then some o.sha else none
+
 end BreezyVerif.C38
